@@ -58,6 +58,7 @@ pub fn same_vec(a: &[f64], b: &[f64]) -> bool { a.len() == b.len() && a.iter().z
 pub fn close(a: f64, b: f64, rel: f64) -> bool {
     if a.is_nan() || b.is_nan() { return a.is_nan() && b.is_nan(); }
     if a == b { return true; }
+    if a.is_infinite() || b.is_infinite() { return false; }
     (a - b).abs() <= rel * (1.0 + a.abs().max(b.abs()))
 }
 pub fn jstr(s: &str) -> String {
